@@ -524,7 +524,7 @@ func c09R3Delete(c *Ctx, R3 string, h *c09Helpers) {
 				eq, _, _ := CallTests(f, c09nEqual, func(x *ssa.Call) bool {
 					a, b := x.Call.Args[0], x.Call.Args[1]
 					isVal := func(v ssa.Value) bool {
-						for _, r := range Roots(v) {
+						for _, r := range Roots(c09CellOrValue(v)) {
 							if e, ok := r.(*ssa.Extract); !ok || e.Index != 2 || e.Tuple != nx {
 								return false
 							}
